@@ -54,6 +54,7 @@ pub fn generate(tier: Tier, rng: &mut Rng, sink: &mut dyn FnMut(RtCase)) {
     gen_exh(&mut g);
     gen_rand(&mut g);
     gen_wide(&mut g);
+    gen_burst(&mut g);
     gen_conflict(&mut g);
     gen_sexh(&mut g);
     gen_srand(&mut g);
@@ -131,7 +132,7 @@ fn small_dags() -> Vec<(usize, Vec<(usize, usize)>)> {
 /// Random DAG: edges follow a random permutation, so every op is valid.
 fn random_graph(rng: &mut Rng, n_lo: usize, n_hi: usize, accesses: bool) -> (Vec<Op>, usize) {
     let n = n_lo + rng.below(n_hi - n_lo + 1);
-    let types = if accesses { rng.below(3) } else { 0 };
+    let types = if accesses { rng.below(4) } else { 0 };
     let mut ops = Vec::new();
     for i in 0..n {
         let mut rd = Vec::new();
@@ -139,10 +140,13 @@ fn random_graph(rng: &mut Rng, n_lo: usize, n_hi: usize, accesses: bool) -> (Vec
         for t in 0..types {
             match rng.below(10) {
                 0..=4 => {}
-                5..=7 => rd.push(t),
+                5..=6 => rd.push(t),
                 _ => wr.push(t),
             }
         }
+        // declaration order must not matter
+        rng.shuffle(&mut rd);
+        rng.shuffle(&mut wr);
         ops.push(f_op(i, rd, wr));
     }
     let mut perm: Vec<usize> = (0..n).collect();
@@ -755,6 +759,74 @@ fn gen_wide(g: &mut Gen) {
             run.finish();
             drop(run);
             g.emit(&format!("{family}-stream"), &ops, Body::S(cfg, evs));
+        }
+    }
+}
+
+// ---------------------------------------------------------------------------------------------
+// burst: many FnRefs dropped between two polls (more than any constant channel size)
+// ---------------------------------------------------------------------------------------------
+
+fn burst_graphs() -> Vec<(&'static str, usize, Vec<Op>)> {
+    let mut out = Vec::new();
+    for n in [34usize, 41, 70, 131] {
+        let fan_in: Vec<(usize, usize)> = (0..n - 1).map(|i| (i, n - 1)).collect();
+        out.push(("burst-fanin", n, plain_ops(n, &fan_in)));
+        let fan_out: Vec<(usize, usize)> = (1..n).map(|i| (0, i)).collect();
+        out.push(("burst-fanout", n, plain_ops(n, &fan_out)));
+        // two layers, each node of the first half points to one node of the second half
+        let half = n / 2;
+        let pairs: Vec<(usize, usize)> = (0..half).map(|i| (i, half + i)).collect();
+        out.push(("burst-pairs", n, plain_ops(n, &pairs)));
+    }
+    out
+}
+
+fn gen_burst(g: &mut Gen) {
+    for (family, n, ops) in burst_graphs() {
+        let graph = must_build(&ops);
+        for rev in [false, true] {
+            for int in [false, true] {
+                let cfg = StreamCfg {
+                    rev,
+                    int,
+                    strat: Strat::Non,
+                };
+                let mut run = StreamRun::new(&graph, &cfg);
+                let mut evs = Vec::new();
+                let cap = 8 * n + 20;
+                let mut rounds = 0;
+                while evs.len() < cap && !run.stopped() && rounds < 6 {
+                    rounds += 1;
+                    // poll until Pending / None
+                    loop {
+                        run.apply(&SEv::Next);
+                        evs.push(SEv::Next);
+                        if run.last_pending() || run.finished() || run.stopped() || evs.len() >= cap {
+                            break;
+                        }
+                    }
+                    // drop everything that is held, in random order, without polling in between
+                    let mut held = run.held_ids();
+                    if held.is_empty() {
+                        break;
+                    }
+                    g.rng.shuffle(&mut held);
+                    for i in held {
+                        run.apply(&SEv::Drop(i));
+                        evs.push(SEv::Drop(i));
+                    }
+                }
+                // a last poll shows whether the stream ended
+                if !run.stopped() && evs.len() < cap {
+                    run.apply(&SEv::Next);
+                    evs.push(SEv::Next);
+                }
+                run.finish();
+                drop(run);
+                let _ = n;
+                g.emit(family, &ops, Body::S(cfg, evs));
+            }
         }
     }
 }
